@@ -2,10 +2,24 @@
   C01, part 2 — every trace of the Lean detector models satisfies the lifecycle contract
   (is accepted by the acceptor of `Model/Lifecycle.lean`), for all configurations and all
   histories.  One section per detector model; each instantiates `Lifecycle.model_accepted`
-  with an invariant linking the acceptor's memory to the model's state.
+  with an invariant linking the acceptor's memory to the model's state (MD3, whose rows are
+  the accepted `update` calls of an arbitrary call history, has its own induction).
+
+  The `Cfg` chosen for each model (`kind`, `a`, `b`, `restart`, `incAfterDrift`, `hasRecs`) is the
+  one `harness/impl/zoo.py` (`Family.lifecycle`, `has_recs`) hands to the same acceptor for the
+  real detector.  No clause of the acceptor had to be weakened: none of the theorems is `_partial`.
+  Non-vacuity: the `example`s at the end exhibit, per detector, a trace with a drift and the
+  restart that follows it.
 -/
 import MenelausVerif.Props.C01
 import MenelausVerif.Model.PageHinkley
+import MenelausVerif.Props.C03
+import MenelausVerif.Props.C04
+import MenelausVerif.Props.C05
+import MenelausVerif.Props.C06
+import MenelausVerif.Props.C10
+import MenelausVerif.Props.C11
+import MenelausVerif.Props.C19
 namespace MV.Lifecycle
 open MV
 
@@ -75,4 +89,830 @@ theorem ph_accepted (c : PH.Cfg α) (xs : List α) :
     (by simp [phInv, PH.init])
 
 end PH
+
+/-! ### DDM (kind `ddm`, restart 1, recommendations) -/
+section DDM
+variable {α : Type} [Add α] [Sub α] [Mul α] [Div α] [LE α] [DecidableLE α] [NatCast α] [HasSqrt α]
+
+def ddmCfg (c : DDM.Cfg α) : Cfg :=
+  { kind := .ddm, a := c.nThreshold, b := 1, restart := 1, incAfterDrift := 1, hasRecs := true }
+
+def ddmRow (s : DDM.State α) (_ : Bool) : Obs :=
+  { drift := s.drift, total := s.total, since := s.since, recs := s.recs, err := false, refDone := false }
+
+/-- the acceptor's memory mirrors the public counters; a non-`None` state is past the warm-up; a
+    recommendation start is an index already seen -/
+def ddmInv (c : DDM.Cfg α) (m : Mon) (s : DDM.State α) : Prop :=
+  m.total = s.total ∧ m.since = s.since ∧ m.prevDrift = s.drift ∧
+  (s.drift ≠ .none → s.since ≥ c.nThreshold) ∧ (∀ a, s.recs.1 = some a → a < s.total)
+
+/-- everything the contract reads of one DDM update -/
+theorem ddm_step_facts (c : DDM.Cfg α) (s : DDM.State α) (e : Bool)
+    (hw : s.drift ≠ .none → s.since ≥ c.nThreshold) (hr : ∀ a, s.recs.1 = some a → a < s.total) :
+    (DDM.step c s e).total = s.total + 1 ∧
+    (DDM.step c s e).since = (if s.drift = .drift then 1 else s.since + 1) ∧
+    ((DDM.step c s e).drift ≠ .none → (DDM.step c s e).since ≥ c.nThreshold) ∧
+    (∀ a, (DDM.step c s e).recs.1 = some a → a < s.total + 1) ∧
+    ((DDM.step c s e).drift = .drift → ∃ a, (DDM.step c s e).recs = (some a, some s.total) ∧ a ≤ s.total) ∧
+    (s.drift = .drift → ((DDM.step c s e).recs.1 = none ∨ (DDM.step c s e).recs.1 = some s.total) ∧
+      ((DDM.step c s e).recs.2 = none ∨ (DDM.step c s e).recs.2 = some s.total)) := by
+  simp only [DDM.step, DDM.core, DDM.reset, incRecsFirst, Recs.empty]
+  grind
+
+theorem ddm_step_ok (c : DDM.Cfg α) (m : Mon) (s : DDM.State α) (e : Bool) (h : ddmInv c m s) :
+    violated (ddmCfg c) m (ddmRow (DDM.step c s e) e) = none ∧
+      ddmInv c (advance m (ddmRow (DDM.step c s e) e)) (DDM.step c s e) := by
+  obtain ⟨h1, h2, h3, h4, h5⟩ := h
+  obtain ⟨f1, f2, f3, f4, f5, f6⟩ := ddm_step_facts c s e h4 h5
+  constructor
+  · rw [violated_none_iff]
+    constructor
+    · simp [ddmCfg, ddmRow, expectedTotal, f1, h1]
+    · simp only [ddmCfg, ddmRow, expectedSince, f2, h2, h3]; simp
+    · intro hd; simpa [warm, ddmCfg, ddmRow] using f3 hd
+    · intro _ hd
+      obtain ⟨a, ha, hle⟩ := f5 hd
+      simp [recsAtDrift, ddmRow, ha, hle, f1]
+    · intro _ hp _
+      rw [h3] at hp
+      obtain ⟨g1, g2⟩ := f6 hp
+      simp only [recsFresh, ddmRow, f1]
+      rcases g1 with g1 | g1 <;> rcases g2 with g2 | g2 <;> simp [g1, g2]
+    · intro hk; simp [ddmCfg] at hk
+  · refine ⟨by simp [advance, ddmRow], by simp [advance, ddmRow], by simp [advance, ddmRow], f3, ?_⟩
+    rw [f1]; exact f4
+
+/-- **DDM satisfies the lifecycle contract on every history.** -/
+theorem ddm_accepted (c : DDM.Cfg α) (xs : List Bool) :
+    accept (ddmCfg c) {} 0 (rowsOf (DDM.step c) ddmRow DDM.init xs) = none :=
+  model_accepted (ddmCfg c) _ ddmRow (ddmInv c) (fun m s x h => ddm_step_ok c m s x h) xs {} DDM.init 0
+    (by simp [ddmInv, DDM.init, Recs.empty])
+
+end DDM
+
+/-! ### EDDM (kind `eddm`: the warm-up counts the *errors* of the epoch) -/
+section EDDM
+variable {α : Type} [Add α] [Sub α] [Mul α] [Div α] [LT α] [DecidableLT α] [LE α] [DecidableLE α]
+  [NatCast α] [HasSqrt α]
+
+def eddmCfg (c : EDDM.Cfg α) : Cfg :=
+  { kind := .eddm, a := c.nThreshold, b := 1, restart := 1, incAfterDrift := 1, hasRecs := true }
+
+/-- the row carries the input-derived signal "this sample was a misclassification" -/
+def eddmRow (s : EDDM.State α) (e : Bool) : Obs :=
+  { drift := s.drift, total := s.total, since := s.since, recs := s.recs, err := e, refDone := false }
+
+/-- as for DDM, and the acceptor's error count of the epoch is the model's `_n_errors` -/
+def eddmInv (c : EDDM.Cfg α) (m : Mon) (s : EDDM.State α) : Prop :=
+  m.total = s.total ∧ m.since = s.since ∧ m.prevDrift = s.drift ∧ m.errs = s.nErrors ∧
+  (s.drift ≠ .none → s.nErrors ≥ c.nThreshold) ∧ (∀ a, s.recs.1 = some a → a < s.total)
+
+theorem eddm_step_facts (c : EDDM.Cfg α) (s : EDDM.State α) (e : Bool)
+    (hw : s.drift ≠ .none → s.nErrors ≥ c.nThreshold) (hr : ∀ a, s.recs.1 = some a → a < s.total) :
+    (EDDM.step c s e).total = s.total + 1 ∧
+    (EDDM.step c s e).since = (if s.drift = .drift then 1 else s.since + 1) ∧
+    (EDDM.step c s e).nErrors = (if s.drift = .drift then 0 else s.nErrors) + (if e then 1 else 0) ∧
+    ((EDDM.step c s e).drift ≠ .none → (EDDM.step c s e).nErrors ≥ c.nThreshold) ∧
+    (∀ a, (EDDM.step c s e).recs.1 = some a → a < s.total + 1) ∧
+    ((EDDM.step c s e).drift = .drift → ∃ a, (EDDM.step c s e).recs = (some a, some s.total) ∧ a ≤ s.total) ∧
+    (s.drift = .drift → ((EDDM.step c s e).recs.1 = none ∨ (EDDM.step c s e).recs.1 = some s.total) ∧
+      ((EDDM.step c s e).recs.2 = none ∨ (EDDM.step c s e).recs.2 = some s.total)) := by
+  simp only [EDDM.step, EDDM.core, EDDM.reset, incRecsFirst, Recs.empty]
+  cases e <;> grind
+
+theorem eddm_step_ok (c : EDDM.Cfg α) (m : Mon) (s : EDDM.State α) (e : Bool) (h : eddmInv c m s) :
+    violated (eddmCfg c) m (eddmRow (EDDM.step c s e) e) = none ∧
+      eddmInv c (advance m (eddmRow (EDDM.step c s e) e)) (EDDM.step c s e) := by
+  obtain ⟨h1, h2, h3, h3e, h4, h5⟩ := h
+  obtain ⟨f1, f2, fe, f3, f4, f5, f6⟩ := eddm_step_facts c s e h4 h5
+  have herr : errsNow m (eddmRow (EDDM.step c s e) e) = (EDDM.step c s e).nErrors := by
+    simp only [errsNow, eddmRow, fe, h3, h3e]
+    cases e <;> rfl
+  constructor
+  · rw [violated_none_iff]
+    constructor
+    · simp [eddmCfg, eddmRow, expectedTotal, f1, h1]
+    · simp only [eddmCfg, eddmRow, expectedSince, f2, h2, h3]; simp
+    · intro hd
+      have := f3 hd
+      simp only [warm, eddmCfg, herr]; simpa using this
+    · intro _ hd
+      obtain ⟨a, ha, hle⟩ := f5 hd
+      simp [recsAtDrift, eddmRow, ha, hle, f1]
+    · intro _ hp _
+      rw [h3] at hp
+      obtain ⟨g1, g2⟩ := f6 hp
+      simp only [recsFresh, eddmRow, f1]
+      rcases g1 with g1 | g1 <;> rcases g2 with g2 | g2 <;> simp [g1, g2]
+    · intro hk; simp [eddmCfg] at hk
+  · refine ⟨by simp [advance, eddmRow], by simp [advance, eddmRow], by simp [advance, eddmRow], ?_, f3, ?_⟩
+    · simp only [advance]; exact herr
+    · rw [f1]; exact f4
+
+/-- **EDDM satisfies the lifecycle contract on every history.** -/
+theorem eddm_accepted (c : EDDM.Cfg α) (xs : List Bool) :
+    accept (eddmCfg c) {} 0 (rowsOf (EDDM.step c) eddmRow EDDM.init xs) = none :=
+  model_accepted (eddmCfg c) _ eddmRow (eddmInv c) (fun m s x h => eddm_step_ok c m s x h) xs {} EDDM.init 0
+    (by simp [eddmInv, EDDM.init, Recs.empty])
+
+end EDDM
+
+/-! ### STEPD (kind `stepd`: two full windows) -/
+section STEPD
+variable {α : Type} [Add α] [Sub α] [Mul α] [Div α] [Neg α] [LT α] [DecidableLT α] [NatCast α] [HasSqrt α]
+
+def stepdCfg (c : STEPD.Cfg α) : Cfg :=
+  { kind := .stepd, a := c.window, b := 1, restart := 1, incAfterDrift := 1, hasRecs := true }
+
+def stepdRow (s : STEPD.State) (_ : Bool) : Obs :=
+  { drift := s.drift, total := s.total, since := s.since, recs := s.recs, err := false, refDone := false }
+
+/-- the recommendation is empty while the state is `None`, otherwise a range of seen indices ending at
+    the latest sample -/
+def stepdInv (c : STEPD.Cfg α) (m : Mon) (s : STEPD.State) : Prop :=
+  m.total = s.total ∧ m.since = s.since ∧ m.prevDrift = s.drift ∧
+  (s.drift ≠ .none → s.since ≥ 2 * c.window) ∧
+  (s.drift = .none → s.recs = Recs.empty) ∧
+  (s.drift ≠ .none → ∃ a, s.recs = (some a, some (s.total - 1)) ∧ a + 1 ≤ s.total)
+
+theorem stepd_push_fields (w : Nat) (s : STEPD.State) (ok : Bool) :
+    (STEPD.push w s ok).total = s.total + 1 ∧ (STEPD.push w s ok).since = s.since + 1 ∧
+    (STEPD.push w s ok).drift = s.drift ∧ (STEPD.push w s ok).recs = s.recs := by
+  unfold STEPD.push
+  simp only
+  split
+  · split <;> simp
+  · simp
+
+theorem stepd_step_facts (c : STEPD.Cfg α) (s : STEPD.State) (e : Bool)
+    (hw : s.drift ≠ .none → s.since ≥ 2 * c.window)
+    (hn : s.drift = .none → s.recs = Recs.empty)
+    (hr : s.drift ≠ .none → ∃ a, s.recs = (some a, some (s.total - 1)) ∧ a + 1 ≤ s.total) :
+    (STEPD.step c s e).total = s.total + 1 ∧
+    (STEPD.step c s e).since = (if s.drift = .drift then 1 else s.since + 1) ∧
+    ((STEPD.step c s e).drift ≠ .none → (STEPD.step c s e).since ≥ 2 * c.window) ∧
+    ((STEPD.step c s e).drift = .none → (STEPD.step c s e).recs = Recs.empty) ∧
+    ((STEPD.step c s e).drift ≠ .none → ∃ a, (STEPD.step c s e).recs = (some a, some s.total) ∧ a ≤ s.total) ∧
+    (s.drift = .drift → (STEPD.step c s e).drift ≠ .none → (STEPD.step c s e).recs = (some s.total, some s.total)) := by
+  obtain ⟨p1, p2, p3, p4⟩ := stepd_push_fields c.window (if s.drift = .drift then STEPD.reset s else s) (!e)
+  simp only [STEPD.step, STEPD.core]
+  generalize STEPD.push c.window (if s.drift = .drift then STEPD.reset s else s) (!e) = s1 at *
+  generalize STEPD.decide3 c s1 = st
+  by_cases hd : s.drift = .drift
+  · simp only [hd, if_true, STEPD.reset, Recs.empty] at p1 p2 p3 p4 ⊢
+    cases st <;> simp only [incRecsRun] <;> grind
+  · simp only [hd, if_false] at p1 p2 p3 p4 ⊢
+    by_cases hn' : s.drift = .none
+    · have := hn hn'
+      simp only [Recs.empty] at this ⊢
+      cases st <;> simp only [incRecsRun] <;> grind
+    · obtain ⟨a, ha, hle⟩ := hr hn'
+      have := hw hn'
+      cases st <;> simp only [incRecsRun, Recs.empty] <;> grind
+
+theorem stepd_step_ok (c : STEPD.Cfg α) (m : Mon) (s : STEPD.State) (e : Bool) (h : stepdInv c m s) :
+    violated (stepdCfg c) m (stepdRow (STEPD.step c s e) e) = none ∧
+      stepdInv c (advance m (stepdRow (STEPD.step c s e) e)) (STEPD.step c s e) := by
+  obtain ⟨h1, h2, h3, h4, h5, h6⟩ := h
+  obtain ⟨f1, f2, f3, f4, f5, f6⟩ := stepd_step_facts c s e h4 h5 h6
+  constructor
+  · rw [violated_none_iff]
+    constructor
+    · simp [stepdCfg, stepdRow, expectedTotal, f1, h1]
+    · simp only [stepdCfg, stepdRow, expectedSince, f2, h2, h3]; simp
+    · intro hd; simpa [warm, stepdCfg, stepdRow] using f3 hd
+    · intro _ hd
+      obtain ⟨a, ha, hle⟩ := f5 (by simp only [stepdRow] at hd; rw [hd]; simp)
+      simp [recsAtDrift, stepdRow, ha, hle, f1]
+    · intro _ hp _
+      rw [h3] at hp
+      simp only [recsFresh, stepdRow, f1]
+      by_cases hd : (STEPD.step c s e).drift = .none
+      · rw [f4 hd]; simp [Recs.empty]
+      · rw [f6 hp hd]; simp
+    · intro hk; simp [stepdCfg] at hk
+  · refine ⟨by simp [advance, stepdRow], by simp [advance, stepdRow], by simp [advance, stepdRow], f3, f4, ?_⟩
+    intro hd
+    obtain ⟨a, ha, hle⟩ := f5 hd
+    exact ⟨a, by rw [ha, f1]; simp, by rw [f1]; omega⟩
+
+/-- **STEPD satisfies the lifecycle contract on every history.** -/
+theorem stepd_accepted (c : STEPD.Cfg α) (xs : List Bool) :
+    accept (stepdCfg c) {} 0 (rowsOf (STEPD.step c) stepdRow STEPD.init xs) = none :=
+  model_accepted (stepdCfg c) _ stepdRow (stepdInv c) (fun m s x h => stepd_step_ok c m s x h) xs {} STEPD.init 0
+    (by simp [stepdInv, STEPD.init, Recs.empty])
+
+end STEPD
+
+/-! ### CUSUM (kind `burnin`, restart 1) -/
+section CUSUM
+variable {α : Type} [Add α] [Sub α] [Mul α] [Div α] [LT α] [DecidableLT α] [NatCast α] [BEq α]
+  [HasSqrt α]
+
+def cusumCfg (c : Cusum.Cfg α) : Cfg :=
+  { kind := .burnin, a := c.burnIn, b := 1, restart := 1, incAfterDrift := 1, hasRecs := false }
+
+def cusumRow (s : Cusum.State α) (_ : α) : Obs :=
+  { drift := s.drift, total := s.total, since := s.since, recs := (none, none), err := false, refDone := false }
+
+def cusumInv (c : Cusum.Cfg α) (m : Mon) (s : Cusum.State α) : Prop :=
+  m.total = s.total ∧ m.since = s.since ∧ m.prevDrift = s.drift ∧ (s.drift ≠ .none → s.since > c.burnIn)
+
+/-- an update either keeps the (reset) state or alarms past the burn-in — whatever its outcome -/
+theorem cusum_step_drift (c : Cusum.Cfg α) (s : Cusum.State α) (x : α) :
+    (Cusum.step c s x).1.drift = (if s.drift = .drift then .none else s.drift) ∨
+    ((Cusum.step c s x).1.drift = .drift ∧ (Cusum.step c s x).1.since > c.burnIn) := by
+  have hp : (Cusum.prep c s).drift = (if s.drift = .drift then .none else s.drift) := by
+    unfold Cusum.prep; split <;> simp_all
+  unfold Cusum.step
+  rcases Cusum.core_cases c (Cusum.prep c s) x with h' | h' | ⟨t, d, _, _, _, h'⟩
+  · left; rw [h'.1, ← hp]; rfl
+  · left; rw [h'.1, ← hp]; rfl
+  · rw [h']
+    unfold Cusum.advance Cusum.finish
+    split
+    · right; rename_i h; exact ⟨rfl, h.1⟩
+    · left; rw [← hp]; rfl
+
+theorem cusum_step_ok (c : Cusum.Cfg α) (m : Mon) (s : Cusum.State α) (x : α) (h : cusumInv c m s) :
+    violated (cusumCfg c) m (cusumRow (Cusum.step c s x).1 x) = none ∧
+      cusumInv c (advance m (cusumRow (Cusum.step c s x).1 x)) (Cusum.step c s x).1 := by
+  obtain ⟨h1, h2, h3, h4⟩ := h
+  have ht := Cusum.step_total c s x
+  have hs := Cusum.step_since c s x
+  have hw : (Cusum.step c s x).1.drift ≠ .none → (Cusum.step c s x).1.since > c.burnIn := by
+    intro hne
+    rcases cusum_step_drift c s x with hd | ⟨_, hd⟩
+    · by_cases hdd : s.drift = .drift
+      · rw [if_pos hdd] at hd; exact absurd hd hne
+      · rw [if_neg hdd] at hd hs
+        rw [hd] at hne; have := h4 hne; omega
+    · exact hd
+  constructor
+  · rw [violated_none_iff]
+    constructor
+    · simp [cusumCfg, cusumRow, expectedTotal, ht, h1]
+    · simp only [cusumCfg, cusumRow, expectedSince, hs, h2, h3]; simp
+    · intro hd; simpa [warm, cusumCfg, cusumRow] using hw hd
+    · intro hk; simp [cusumCfg] at hk
+    · intro hk; simp [cusumCfg] at hk
+    · intro hk; simp [cusumCfg] at hk
+  · exact ⟨by simp [advance, cusumRow], by simp [advance, cusumRow], by simp [advance, cusumRow], hw⟩
+
+/-- **CUSUM satisfies the lifecycle contract on every history** — the rows are the states the detector
+    is left in by *every* update, including one that raises (`total_samples` has then been
+    incremented already, see `Model/Cusum.lean`); in particular on the histories in which no update
+    raises (`Cusum.run c xs = some s`), which are the ones the contract quantifies over. -/
+theorem cusum_accepted (c : Cusum.Cfg α) (xs : List α) :
+    accept (cusumCfg c) {} 0 (rowsOf (fun s x => (Cusum.step c s x).1) cusumRow (Cusum.init c) xs) = none :=
+  model_accepted (cusumCfg c) _ cusumRow (cusumInv c) (fun m s x h => cusum_step_ok c m s x h) xs {}
+    (Cusum.init c) 0 (by simp [cusumInv, Cusum.init])
+
+end CUSUM
+
+/-! ### ADWIN / ADWINAccuracy (kind `adwin`: schedule and minimum width; the width is reconstructed
+    from the public recommendation) -/
+section ADWIN
+variable {α : Type} [Add α] [Sub α] [Mul α] [Div α] [Neg α] [LT α] [DecidableLT α]
+  [NatCast α] [HasSqrt α] [HasLogExp α]
+
+def adwinCfg (c : Adwin.Cfg α) : Cfg :=
+  { kind := .adwin, a := c.windowThresh, b := c.newSampleThresh, restart := 1, incAfterDrift := 1, hasRecs := true }
+
+/-- `Model/Adwin.lean` leaves out `samples_since_reset` (ADWIN never reads it).  The contract observes
+    it, so the model state is paired with it here, transcribed from `adwin.py:105-115`:
+    `if self.drift_state is not None: self.reset()` (→ 0), then `super().update` (+ 1). -/
+structure AdwinL (α : Type) where
+  st : Adwin.State α
+  since : Nat
+
+def adwinInitL : AdwinL α := ⟨Adwin.init, 0⟩
+
+def adwinStepL (c : Adwin.Cfg α) (s : AdwinL α) (x : α) : AdwinL α :=
+  ⟨Adwin.step c s.st x, (if s.st.drift ≠ .none then 0 else s.since) + 1⟩
+
+def adwinObs (s : AdwinL α) : Obs :=
+  { drift := s.st.drift, total := s.st.total, since := s.since, recs := s.st.recs, err := false, refDone := false }
+
+def adwinRow (s : AdwinL α) (_ : α) : Obs := adwinObs s
+
+/-- the acceptor's reconstructed width is the model's `_window_size` -/
+def adwinInv (m : Mon) (s : AdwinL α) : Prop :=
+  m.total = s.st.total ∧ m.since = s.since ∧ m.prevDrift = s.st.drift ∧ m.width = s.st.W ∧ Adwin.SInv s.st
+
+theorem adwin_step_ok (c : Adwin.Cfg α) (hsub : 1 ≤ c.subThresh) (m : Mon) (s : AdwinL α) (x : α)
+    (h : adwinInv m s) :
+    violated (adwinCfg c) m (adwinRow (adwinStepL c s x) x) = none ∧
+      adwinInv (advance m (adwinRow (adwinStepL c s x) x)) (adwinStepL c s x) := by
+  obtain ⟨h1, h2, h3, h4, h5⟩ := h
+  obtain ⟨st, since⟩ := s
+  simp only at h1 h2 h3 h4 h5
+  obtain ⟨hinv, htot, _⟩ := Adwin.step_spec c hsub st h5 x
+  obtain ⟨w1, w2, w3, w4⟩ := Adwin.width_step c hsub st h5 x
+  have hdi := Adwin.step_drift_iff c hsub st h5 x
+  obtain ⟨r1, r2⟩ := Adwin.step_recs c hsub st h5 x
+  obtain ⟨_, a2, a3, _, _, _⟩ := Adwin.afterAdd_spec c st h5 x
+  have hnw := hinv.nowarn
+  have hnw0 := h5.nowarn
+  -- the reconstructed width
+  have hwidth : widthNow m (adwinRow (adwinStepL c ⟨st, since⟩ x) x) = (Adwin.step c st x).W := by
+    simp only [widthNow, adwinRow, adwinObs, adwinStepL]
+    by_cases hd : (Adwin.step c st x).drift = .drift
+    · obtain ⟨e1, e2⟩ := r1 hd
+      rw [hd, e1]; simp only; omega
+    · have hn : (Adwin.step c st x).drift = .none := by
+        cases hdd : (Adwin.step c st x).drift <;> simp_all
+      rw [hn]; simp only; rw [h4]; exact (w3.mp hn).symm
+  constructor
+  · rw [violated_none_iff]
+    constructor
+    · simp [adwinCfg, adwinRow, adwinObs, adwinStepL, expectedTotal, htot, h1]
+    · simp only [adwinCfg, adwinRow, adwinObs, adwinStepL, expectedSince, h2, h3]
+      cases hdd : st.drift <;> simp_all
+    · intro hd
+      have hd' : (Adwin.step c st x).drift = .drift := by
+        simp only [adwinRow, adwinObs, adwinStepL] at hd
+        cases hdd : (Adwin.step c st x).drift <;> simp_all
+      obtain ⟨hs, _⟩ := hdi.mp hd'
+      simp only [Adwin.scheduled, a2, a3, decide_eq_true_eq] at hs
+      simp only [warm, adwinCfg, adwinRow, adwinObs, adwinStepL, htot, h4]
+      simp [hs.1, hs.2]
+    · intro _ hd
+      simp only [adwinRow, adwinObs, adwinStepL] at hd
+      obtain ⟨e1, e2⟩ := r1 hd
+      simp only [recsAtDrift, adwinRow, adwinObs, adwinStepL, e1]
+      simp only [Bool.and_eq_true, decide_eq_true_eq]
+      omega
+    · intro _ _ hk
+      have hd : (Adwin.step c st x).drift ≠ .drift := by
+        intro hd; exact hk ⟨rfl, by simpa [adwinRow, adwinObs, adwinStepL] using hd⟩
+      simp [recsFresh, adwinRow, adwinObs, adwinStepL, r2 hd, Recs.empty]
+    · intro _ hd
+      simp only [adwinRow, adwinObs, adwinStepL] at hd
+      obtain ⟨e1, e2⟩ := r1 hd
+      have horecs : (adwinRow (adwinStepL c ⟨st, since⟩ x) x).recs =
+          (some ((Adwin.step c st x).total - (Adwin.step c st x).W), some ((Adwin.step c st x).total - 1)) := e1
+      have hotot : (adwinRow (adwinStepL c ⟨st, since⟩ x) x).total = (Adwin.step c st x).total := rfl
+      unfold adwinRecs
+      rw [horecs]
+      simp only [hwidth, hotot, Bool.and_eq_true, decide_eq_true_eq]
+      omega
+  · refine ⟨by simp [advance, adwinRow, adwinObs, adwinStepL], by simp [advance, adwinRow, adwinObs, adwinStepL],
+      by simp [advance, adwinRow, adwinObs, adwinStepL], ?_, hinv⟩
+    simp only [advance]; exact hwidth
+
+/-- **ADWIN satisfies the lifecycle contract on every history** (`subwindow_size_thresh ≥ 1`, as in C03). -/
+theorem adwin_accepted (c : Adwin.Cfg α) (hsub : 1 ≤ c.subThresh) (xs : List α) :
+    accept (adwinCfg c) {} 0 (rowsOf (adwinStepL c) adwinRow adwinInitL xs) = none :=
+  model_accepted (adwinCfg c) _ adwinRow adwinInv (fun m s x h => adwin_step_ok c hsub m s x h) xs {}
+    adwinInitL 0 ⟨rfl, rfl, rfl, rfl, Adwin.sinv_init⟩
+
+/-- the paired state's first component is the C03 model run -/
+theorem adwinL_st (c : Adwin.Cfg α) (xs : List α) (s : AdwinL α) :
+    (xs.foldl (adwinStepL c) s).st = xs.foldl (Adwin.step c) s.st := by
+  induction xs generalizing s with
+  | nil => rfl
+  | cons x xs ih => simp only [List.foldl_cons]; rw [ih]; rfl
+
+/-- **ADWINAccuracy** is ADWIN on the agreement indicator (`C03.adwinAcc_eq_adwin`), so its traces are
+    accepted under the same configuration -/
+theorem adwinAcc_accepted {β : Type} [DecidableEq β] (c : Adwin.Cfg α) (hsub : 1 ≤ c.subThresh)
+    (ys : List (β × β)) :
+    accept (adwinCfg c) {} 0
+      (rowsOf (fun s (y : β × β) => adwinStepL c s (AdwinAcc.indicator y.1 y.2))
+        (fun s _ => adwinObs s) adwinInitL ys) = none :=
+  model_accepted (adwinCfg c) _ _ adwinInv
+    (fun m s y h => adwin_step_ok c hsub m s (AdwinAcc.indicator y.1 y.2) h) ys {}
+    adwinInitL 0 ⟨rfl, rfl, rfl, rfl, Adwin.sinv_init⟩
+
+end ADWIN
+
+/-! ### LinearFourRates (kind `lfr`: past the burn-in and on the subsample schedule) -/
+section LFR
+variable {α : Type} [Add α] [Sub α] [Mul α] [Div α] [LT α] [DecidableLT α] [LE α] [DecidableLE α]
+  [NatCast α] [BEq α] [LFR.HasRound α]
+
+def lfrCfg (c : LFR.Cfg α) : Cfg :=
+  { kind := .lfr, a := c.burnIn, b := c.subsample, restart := 1, incAfterDrift := 1, hasRecs := true }
+
+def lfrRow (s : LFR.State α) (_ : LFR.Op) : Obs :=
+  { drift := s.drift, total := s.total, since := s.since, recs := s.recs, err := false, refDone := false }
+
+def lfrStep (c : LFR.Cfg α) (s : LFR.State α) (o : LFR.Op) : LFR.State α := LFR.step c s o.yt o.yp o.blocks
+
+def lfrInv (c : LFR.Cfg α) (m : Mon) (s : LFR.State α) : Prop :=
+  m.total = s.total ∧ m.since = s.since ∧ m.prevDrift = s.drift ∧
+  (s.drift ≠ .none → LFR.gate c s.since = true) ∧ (∀ a, s.recs.1 = some a → a < s.total)
+
+/-- outside the gate (`since > burn_in` and `since % subsample = 0`) no rate is tested, so nothing is flagged -/
+theorem lfr_quiet (c : LFR.Cfg α) (s : LFR.State α) (yt yp : Bool) (bl : List LFR.Block)
+    (hg : LFR.gate c ((LFR.preReset s).since + 1) = false) : (LFR.step c s yt yp bl).drift = .none := by
+  obtain ⟨_, _, a3, _⟩ := LFR.step_fields c s yt yp bl
+  rw [a3]
+  have hc := LFR.loop_closed c (LFR.ctxOf (LFR.preReset s) yt yp) c.tracked (LFR.acc0 (LFR.preReset s) bl)
+    (by simpa [LFR.ctxOf] using hg)
+  unfold LFR.decide3
+  rw [hc.1, hc.2.1]
+  simp [LFR.acc0, LFR.allRates]
+
+theorem lfr_step_ok (c : LFR.Cfg α) (m : Mon) (s : LFR.State α) (o : LFR.Op) (h : lfrInv c m s) :
+    violated (lfrCfg c) m (lfrRow (lfrStep c s o) o) = none ∧
+      lfrInv c (advance m (lfrRow (lfrStep c s o) o)) (lfrStep c s o) := by
+  obtain ⟨h1, h2, h3, h4, h5⟩ := h
+  obtain ⟨a1, a2, a3, a4, _⟩ := LFR.step_fields c s o.yt o.yp o.blocks
+  obtain ⟨p1, _, _, p4, p5, _⟩ := LFR.preReset_fields s
+  rw [p1] at a1 a4
+  rw [p4] at a2
+  have hq := lfr_quiet c s o.yt o.yp o.blocks
+  rw [p4] at hq
+  have hw : (lfrStep c s o).drift ≠ .none → LFR.gate c (lfrStep c s o).since = true := by
+    intro hne
+    unfold lfrStep at *
+    rw [a2]
+    cases hg : LFR.gate c ((if s.drift = .drift then 0 else s.since) + 1) with
+    | true => rfl
+    | false => exact absurd (hq hg) hne
+  generalize hst : LFR.decide3 _ = st at a3 a4
+  have hrecs : (lfrStep c s o).recs = LFR.recsUpd (if s.drift = .drift then Recs.empty else s.recs) st s.total := by
+    unfold lfrStep; rw [a4, p5]
+  have hfirst : ∀ a, (lfrStep c s o).recs.1 = some a → a < s.total + 1 := by
+    intro a ha
+    rw [hrecs] at ha
+    by_cases hd : s.drift = .drift
+    · simp only [hd, if_true, Recs.empty] at ha
+      cases st <;> simp [LFR.recsUpd] at ha <;> omega
+    · simp only [hd, if_false] at ha
+      cases hr : s.recs.1 with
+      | none => cases st <;> simp [LFR.recsUpd, hr] at ha <;> omega
+      | some b =>
+        have := h5 b hr
+        cases st <;> simp [LFR.recsUpd, hr] at ha <;> omega
+  constructor
+  · rw [violated_none_iff]
+    constructor
+    · simp [lfrCfg, lfrRow, lfrStep, expectedTotal, a1, h1]
+    · simp only [lfrCfg, lfrRow, lfrStep, expectedSince, a2, h2, h3]
+      split <;> simp
+    · intro hd
+      have := hw hd
+      simp only [LFR.gate] at this
+      simpa [warm, lfrCfg, lfrRow] using this
+    · intro _ hd
+      have hd' : st = .drift := by rw [← a3]; exact hd
+      have hr := hrecs
+      rw [hd'] at hr
+      simp only [LFR.recsUpd] at hr
+      have ht : (lfrRow (lfrStep c s o) o).total = s.total + 1 := a1
+      have horecs : (lfrRow (lfrStep c s o) o).recs = (lfrStep c s o).recs := rfl
+      unfold recsAtDrift
+      rw [horecs, hr, ht]
+      by_cases hd0 : s.drift = .drift
+      · simp [hd0, Recs.empty]
+      · simp only [hd0, if_false]
+        cases hr1 : s.recs.1 with
+        | none => simp
+        | some b => have := h5 b hr1; simp; omega
+    · intro _ hp _
+      rw [h3] at hp
+      have hr := hrecs
+      rw [if_pos hp] at hr
+      have ht : (lfrRow (lfrStep c s o) o).total = s.total + 1 := a1
+      have horecs : (lfrRow (lfrStep c s o) o).recs = (lfrStep c s o).recs := rfl
+      unfold recsFresh
+      rw [horecs, hr, ht]
+      cases st <;> simp [LFR.recsUpd, Recs.empty]
+    · intro hk; simp [lfrCfg] at hk
+  · refine ⟨by simp [advance, lfrRow], by simp [advance, lfrRow], by simp [advance, lfrRow], hw, ?_⟩
+    unfold lfrStep at *
+    rw [a1]; exact hfirst
+
+/-- **LinearFourRates satisfies the lifecycle contract on every history** (every sequence of labelled
+    predictions and Monte-Carlo draws). -/
+theorem lfr_accepted (c : LFR.Cfg α) (ops : List LFR.Op) :
+    accept (lfrCfg c) {} 0 (rowsOf (lfrStep c) lfrRow LFR.init ops) = none :=
+  model_accepted (lfrCfg c) _ lfrRow (lfrInv c) (fun m s x h => lfr_step_ok c m s x h) ops {} LFR.init 0
+    (by simp [lfrInv, LFR.init, Recs.empty])
+
+end LFR
+
+/-! ### NN-DVI (kind `batch1`: one test batch) -/
+section NNDVI
+variable {α : Type} [LT α] [DecidableLT α] [Add α] [Sub α] [Mul α] [Div α] [Neg α] [NatCast α] [HasSqrt α]
+
+def nndviCfg : Cfg :=
+  { kind := .batch1, a := 0, b := 1, restart := 1, incAfterDrift := 1, hasRecs := false }
+
+/-- one `update(X)`: the batch, the k-NN graph of the pooled points, the permutations drawn -/
+abbrev NndviIn (α : Type) := List (NNSP.Row α) × List (List Bool) × List (List Nat)
+
+def nndviStep (c : NNDVI.Cfg α) (s : NNDVI.State α) (i : NndviIn α) : NNDVI.State α :=
+  (NNDVI.step c s i.1 i.2.1 i.2.2).1
+
+def nndviRow (s : NNDVI.State α) (_ : NndviIn α) : Obs :=
+  { drift := s.drift, total := s.total, since := s.since, recs := (none, none), err := false, refDone := false }
+
+def nndviInv (m : Mon) (s : NNDVI.State α) : Prop :=
+  m.total = s.total ∧ m.since = s.since ∧ m.prevDrift = s.drift
+
+theorem nndvi_step_ok (c : NNDVI.Cfg α) (m : Mon) (s : NNDVI.State α) (i : NndviIn α) (h : nndviInv m s) :
+    violated nndviCfg m (nndviRow (nndviStep c s i) i) = none ∧
+      nndviInv (advance m (nndviRow (nndviStep c s i) i)) (nndviStep c s i) := by
+  obtain ⟨h1, h2, h3⟩ := h
+  obtain ⟨ht, hs⟩ := NNDVI.step_counters c s i.1 i.2.1 i.2.2
+  constructor
+  · rw [violated_none_iff]
+    constructor
+    · simp [nndviCfg, nndviRow, nndviStep, expectedTotal, ht, h1]
+    · simp only [nndviCfg, nndviRow, nndviStep, expectedSince, hs, h2, h3]; split <;> simp
+    · intro _; simp [warm, nndviCfg, nndviRow, nndviStep, hs]
+    · intro hk; simp [nndviCfg] at hk
+    · intro hk; simp [nndviCfg] at hk
+    · intro hk; simp [nndviCfg] at hk
+  · exact ⟨by simp [advance, nndviRow], by simp [advance, nndviRow], by simp [advance, nndviRow]⟩
+
+/-- the detector before its first update: fresh (`none`) or after `set_reference(X)` (`some X`) -/
+def nndviInit (ref : Option (List (NNSP.Row α))) : NNDVI.State α :=
+  { (NNDVI.init : NNDVI.State α) with reference := ref }
+
+omit [LT α] [DecidableLT α] [Add α] [Sub α] [Mul α] [Div α] [Neg α] [NatCast α] [HasSqrt α] in
+theorem nndviInit_some (X : List (NNSP.Row α)) : nndviInit (some X) = NNDVI.setReference NNDVI.init X := rfl
+
+/-- **NN-DVI satisfies the lifecycle contract on every history of updates**, whatever reference batch
+    `set_reference` installed before (`ref = none`: every update is rejected, and still counted). -/
+theorem nndvi_accepted (c : NNDVI.Cfg α) (ref : Option (List (NNSP.Row α))) (xs : List (NndviIn α)) :
+    accept nndviCfg {} 0 (rowsOf (nndviStep c) nndviRow (nndviInit ref) xs) = none :=
+  model_accepted nndviCfg _ nndviRow nndviInv (fun m s x h => nndvi_step_ok c m s x h) xs {} _ 0
+    (by simp [nndviInv, nndviInit, NNDVI.init])
+
+end NNDVI
+
+/-! ### MD3 (kind `md3`: no minimum; the rows are the accepted `update` calls) -/
+section MD3
+variable {α : Type} [Add α] [Sub α] [Mul α] [Div α] [Neg α] [LT α] [DecidableLT α] [NatCast α]
+
+def md3Cfg : Cfg :=
+  { kind := .md3, a := 0, b := 1, restart := 1, incAfterDrift := 1, hasRecs := false }
+
+def md3Row (s : MD3.State α) : Obs :=
+  { drift := s.drift, total := s.total, since := s.since, recs := (none, none), err := false, refDone := false }
+
+/-- The rows of a call history (any interleaving of `update` and `give_oracle_label` calls, refused
+    ones included): one row per *accepted* `update`, read when the next accepted update arrives or the
+    history ends — i.e. after the label calls that answer it, which are not updates (this is how
+    `harness/checks/c01.py` observes MD3).  `pending` = an accepted update still awaits its row. -/
+def md3Rows (c : MD3.Cfg α) : MD3.State α → Bool → List (MD3.Op α) → List Obs
+  | s, pending, [] => if pending then [md3Row s] else []
+  | s, pending, op :: ops =>
+    if MD3.countsAsUpdate s op then
+      (if pending then [md3Row s] else []) ++ md3Rows c (MD3.step c s op).1 true ops
+    else md3Rows c (MD3.step c s op).1 pending ops
+
+/-- the acceptor's memory mirrors the detector -/
+def md3Mirror (m : Mon) (s : MD3.State α) : Prop :=
+  m.total = s.total ∧ m.since = s.since ∧ m.prevDrift = s.drift
+
+/-- an update was accepted since the acceptor's last row: the counters are one update ahead -/
+def md3Ahead (m : Mon) (s : MD3.State α) : Prop :=
+  s.total = m.total + 1 ∧ s.since = (if m.prevDrift = .drift then 1 else m.since + 1)
+
+def md3Inv (m : Mon) (s : MD3.State α) : Bool → Prop
+  | false => md3Mirror m s ∧ s.waiting = false
+  | true => md3Ahead m s
+
+omit [Add α] [Sub α] [Mul α] [Div α] [Neg α] [LT α] [DecidableLT α] [NatCast α] in
+theorem md3_row_ok (m : Mon) (s : MD3.State α) (h : md3Ahead m s) :
+    violated md3Cfg m (md3Row s) = none ∧ md3Mirror (advance m (md3Row s)) s := by
+  obtain ⟨h1, h2⟩ := h
+  constructor
+  · rw [violated_none_iff]
+    constructor
+    · simp [md3Cfg, md3Row, expectedTotal, h1]
+    · simp only [md3Cfg, md3Row, expectedSince, h2]; simp
+    · intro _; simp [warm, md3Cfg]
+    · intro hk; simp [md3Cfg] at hk
+    · intro hk; simp [md3Cfg] at hk
+    · intro hk; simp [md3Cfg] at hk
+  · exact ⟨by simp [advance, md3Row], by simp [advance, md3Row], by simp [advance, md3Row]⟩
+
+theorem md3_update_ahead (c : MD3.Cfg α) (m : Mon) (s : MD3.State α) (op : MD3.Op α)
+    (h : md3Mirror m s) (hc : MD3.countsAsUpdate s op = true) : md3Ahead m (MD3.step c s op).1 := by
+  obtain ⟨h1, h2, h3⟩ := h
+  have ht := MD3.step_total c s op
+  have hs := MD3.step_since c s op
+  rw [hc] at ht hs
+  simp only [if_true] at ht hs
+  refine ⟨by rw [ht, h1], ?_⟩
+  rw [hs, h2, h3]; split <;> simp
+
+theorem md3_other_ahead (c : MD3.Cfg α) (m : Mon) (s : MD3.State α) (op : MD3.Op α)
+    (h : md3Ahead m s) (hc : MD3.countsAsUpdate s op = false) : md3Ahead m (MD3.step c s op).1 := by
+  have ht := MD3.step_total c s op
+  have hs := MD3.step_since c s op
+  rw [hc] at ht hs
+  simp only [Bool.false_eq_true, if_false, Nat.add_zero] at ht hs
+  unfold md3Ahead
+  rw [ht, hs]; exact h
+
+theorem md3_other_idle (c : MD3.Cfg α) (s : MD3.State α) (op : MD3.Op α) (hw : s.waiting = false)
+    (hc : MD3.countsAsUpdate s op = false) : (MD3.step c s op).1 = s := by
+  cases op <;> grind [MD3.step, MD3.update, MD3.label, MD3.countsAsUpdate]
+
+theorem md3_accepted_from (c : MD3.Cfg α) (ops : List (MD3.Op α)) :
+    ∀ (m : Mon) (s : MD3.State α) (i : Nat) (p : Bool), md3Inv m s p →
+      accept md3Cfg m i (md3Rows c s p ops) = none := by
+  induction ops with
+  | nil =>
+    intro m s i p h
+    cases p with
+    | false => simp [md3Rows, accept]
+    | true => simp [md3Rows, accept, (md3_row_ok m s h).1]
+  | cons op ops ih =>
+    intro m s i p h
+    unfold md3Rows
+    cases hc : MD3.countsAsUpdate s op with
+    | true =>
+      simp only [if_true]
+      cases p with
+      | false =>
+        simp only [Bool.false_eq_true, if_false, List.nil_append]
+        exact ih m _ i true (md3_update_ahead c m s op h.1 hc)
+      | true =>
+        obtain ⟨r1, r2⟩ := md3_row_ok m s h
+        simp only [if_true, List.singleton_append, accept, r1]
+        exact ih _ _ _ true (md3_update_ahead c _ s op r2 hc)
+    | false =>
+      simp only [Bool.false_eq_true, if_false]
+      cases p with
+      | false =>
+        have := md3_other_idle c s op h.2 hc
+        rw [this]
+        exact ih m s i false h
+      | true => exact ih m _ i true (md3_other_ahead c m s op h hc)
+
+/-- **MD3 satisfies the lifecycle contract on every call history** (updates, labels and refused calls
+    in any order), from the state after the constructor and the first `set_reference`. -/
+theorem md3_accepted (c : MD3.Cfg α) (r : MD3.Ref α) (ops : List (MD3.Op α)) :
+    accept md3Cfg {} 0 (md3Rows c (MD3.init c r) false ops) = none :=
+  md3_accepted_from c ops {} (MD3.init c r) 0 false ⟨⟨rfl, rfl, rfl⟩, rfl⟩
+
+end MD3
+
+/-! ### PCA-CD (kind `pcacd`: restart 0; both windows full and on the schedule) -/
+section PCACD
+variable {X α : Type} [Add α] [Sub α] [Mul α] [Div α] [LT α] [DecidableLT α] [LE α] [DecidableLE α]
+  [NatCast α] [IntCast α] [PCACD.HasTrunc α]
+
+def pcacdCfg (c : PCACD.Cfg α) : Cfg :=
+  { kind := .pcacd, a := c.w, b := c.step, restart := 0, incAfterDrift := 1, hasRecs := false }
+
+def pcacdStep (c : PCACD.Cfg α) (s : PCACD.State X α) (xo : X × PCACD.Oracle α) : PCACD.State X α :=
+  PCACD.step c s xo.1 xo.2
+
+def pcacdRow (s : PCACD.State X α) (_ : X × PCACD.Oracle α) : Obs :=
+  { drift := s.drift, total := s.total, since := s.since, recs := (none, none), err := false, refDone := false }
+
+/-- how far the fill phase has come: `since` counts the samples put into the windows (first epoch: the
+    reference, then the test window; later epochs: the test window only — the reference is the former
+    test window and the sample after the drift is discarded); `first` = no drift reported yet -/
+def pcacdFill (c : PCACD.Cfg α) (first : Bool) (s : PCACD.State X α) : Prop :=
+  s.since ≥ s.test.length ∧
+  (first = true → (s.ref.length < c.w → s.test.length = 0 ∧ s.since ≥ s.ref.length) ∧
+                  (c.w ≤ s.ref.length → s.since ≥ c.w + s.test.length))
+
+/-- the part of the invariant that does not mention the acceptor -/
+structure PcacdReach (c : PCACD.Cfg α) (first : Bool) (s : PCACD.State X α) : Prop where
+  notWarning : s.drift ≠ .warning
+  drifted : s.drift ≠ .none → s.building = true ∧ first = false
+  sliding : s.building = false → s.since ≥ (if first then 2 * c.w else c.w)
+  filling : s.building = true → s.drift = .none → pcacdFill c first s
+
+omit [IntCast α] in
+theorem pcacd_step_facts (c : PCACD.Cfg α) (first : Bool) (s : PCACD.State X α) (x : X) (o : PCACD.Oracle α)
+    (h : PcacdReach c first s) :
+    (PCACD.step c s x o).drift ≠ .warning ∧
+    ((PCACD.step c s x o).drift ≠ .none → (PCACD.step c s x o).building = true ∧ s.total % c.step = 0 ∧
+      (PCACD.step c s x o).since ≥ (if first then 2 * c.w else c.w)) ∧
+    ((PCACD.step c s x o).building = false → (PCACD.step c s x o).since ≥ (if first then 2 * c.w else c.w)) ∧
+    ((PCACD.step c s x o).building = true → (PCACD.step c s x o).drift = .none →
+      pcacdFill c first (PCACD.step c s x o)) := by
+  obtain ⟨h1, h2, h3, h4⟩ := h
+  unfold pcacdFill at *
+  refine ⟨?_, ?_, ?_, ?_⟩
+  · grind [PCACD.step, PCACD.fill, PCACD.build, PCACD.slide]
+  · grind [PCACD.step, PCACD.fill, PCACD.build, PCACD.slide, PCACD.scheduled]
+  · grind [PCACD.step, PCACD.fill, PCACD.build, PCACD.slide]
+  · grind [PCACD.step, PCACD.fill, PCACD.build, PCACD.slide]
+
+
+def pcacdInv (c : PCACD.Cfg α) (m : Mon) (s : PCACD.State X α) : Prop :=
+  m.total = s.total ∧ m.since = s.since ∧ m.prevDrift = s.drift ∧ PcacdReach c (decide (m.epoch = 0)) s
+
+theorem pcacd_step_ok (c : PCACD.Cfg α) (m : Mon) (s : PCACD.State X α) (xo : X × PCACD.Oracle α)
+    (h : pcacdInv c m s) :
+    violated (pcacdCfg c) m (pcacdRow (pcacdStep c s xo) xo) = none ∧
+      pcacdInv c (advance m (pcacdRow (pcacdStep c s xo) xo)) (pcacdStep c s xo) := by
+  obtain ⟨h1, h2, h3, h4⟩ := h
+  obtain ⟨f1, f2, f3, f4⟩ := pcacd_step_facts c _ s xo.1 xo.2 h4
+  have ht := PCACD.step_total c s xo.1 xo.2
+  have hs := PCACD.step_since c s xo.1 xo.2
+  have hdb : (s.building = true ∧ s.drift ≠ .none) ↔ m.prevDrift = .drift := by
+    rw [h3]
+    constructor
+    · intro ⟨_, hd⟩
+      have := h4.notWarning
+      cases hdd : s.drift <;> simp_all
+    · intro hd
+      exact ⟨(h4.drifted (by rw [hd]; simp)).1, by rw [hd]; simp⟩
+  constructor
+  · rw [violated_none_iff]
+    constructor
+    · simp [pcacdCfg, pcacdRow, pcacdStep, expectedTotal, ht, h1]
+    · simp only [pcacdCfg, pcacdRow, pcacdStep, expectedSince, hs, h2]
+      by_cases hp : m.prevDrift = .drift
+      · simp [hp, hdb.mpr hp]
+      · have : ¬ (s.building = true ∧ s.drift ≠ .none) := fun hh => hp (hdb.mp hh)
+        simp [hp, this]
+    · intro hd
+      obtain ⟨_, g2, g3⟩ := f2 hd
+      simp only [warm, pcacdCfg, pcacdRow, pcacdStep, ht, Nat.add_sub_cancel, Bool.and_eq_true,
+        beq_iff_eq, decide_eq_true_eq]
+      refine ⟨g2, ?_⟩
+      by_cases he : m.epoch = 0 <;> simpa [he] using g3
+    · intro hk; simp [pcacdCfg] at hk
+    · intro hk; simp [pcacdCfg] at hk
+    · intro hk; simp [pcacdCfg] at hk
+  · refine ⟨by simp [advance, pcacdRow], by simp [advance, pcacdRow], by simp [advance, pcacdRow], ?_⟩
+    by_cases hd : (pcacdStep c s xo).drift = .drift
+    · -- a drift row: the detector is rebuilding, the acceptor has left its first epoch
+      have hne : (PCACD.step c s xo.1 xo.2).drift ≠ .none := by
+        unfold pcacdStep at hd; rw [hd]; simp
+      have hb := (f2 hne).1
+      have he : decide ((advance m (pcacdRow (pcacdStep c s xo) xo)).epoch = 0) = false := by
+        simp [advance, pcacdRow, hd]
+      rw [he]
+      have hsl : (pcacdStep c s xo).building = false →
+          (pcacdStep c s xo).since ≥ (if false = true then 2 * c.w else c.w) := by
+        intro h'; unfold pcacdStep at h'; rw [hb] at h'; cases h'
+      exact ⟨f1, fun _ => ⟨hb, rfl⟩, hsl, fun _ h' => absurd h' hne⟩
+    · have hn : (PCACD.step c s xo.1 xo.2).drift = .none := by
+        unfold pcacdStep at hd
+        cases hdd : (PCACD.step c s xo.1 xo.2).drift <;> simp_all
+      have he : (advance m (pcacdRow (pcacdStep c s xo) xo)).epoch = m.epoch := by
+        simp [advance, pcacdRow, hd]
+      rw [he]
+      exact ⟨f1, fun h' => absurd hn h', f3, f4⟩
+
+/-- **PCA-CD satisfies the lifecycle contract on every history** (every sequence of samples and oracle
+    values; no assumption on `window_size` or the step). -/
+theorem pcacd_accepted (c : PCACD.Cfg α) (xs : List (X × PCACD.Oracle α)) :
+    accept (pcacdCfg c) {} 0 (rowsOf (pcacdStep c) pcacdRow PCACD.init xs) = none :=
+  model_accepted (pcacdCfg c) _ pcacdRow (pcacdInv c) (fun m s x h => pcacd_step_ok c m s x h) xs {}
+    PCACD.init 0
+    ⟨rfl, rfl, rfl, by
+      constructor <;> simp [PCACD.init, pcacdFill]⟩
+
+end PCACD
+
+/-! ### Non-vacuity: per detector, a concrete trace with a drift (some with a preceding warning) and the
+    restart on the update that follows — `(drift_state, samples_since_reset)` per row.  The `_accepted`
+    theorems have no hypothesis other than ADWIN's `1 ≤ subThresh`, which `Adwin.cfgEx` meets. -/
+section Examples
+local instance : HasSqrt ℚ := ⟨fun x => x⟩
+local instance : HasLogExp ℚ := ⟨fun _ => 1, fun _ => 1⟩
+local instance : LFR.HasRound Int := ⟨Int.toNat, id⟩
+
+/-- what the examples show of a trace -/
+def view (os : List Obs) : List (Drift × Nat) := os.map (fun o => (o.drift, o.since))
+
+example : view (rowsOf (fun s x => (PH.step (⟨0, 1, 1, .positive⟩ : PH.Cfg ℚ) s x).1) phRow PH.init [0, 0, 5, 0]) =
+    [(.none, 1), (.none, 2), (.drift, 3), (.none, 1)] := by decide +kernel
+example : view (rowsOf (DDM.step C05Examples.cd) ddmRow DDM.init [true, false, false, false, true, true]) =
+    [(.none, 1), (.warning, 2), (.warning, 3), (.warning, 4), (.drift, 5), (.none, 1)] := by decide +kernel
+example : (view (rowsOf (EDDM.step C05Examples.ce) eddmRow EDDM.init (C05Examples.xe ++ [false]))).drop 7 =
+    [(.none, 8), (.warning, 9), (.warning, 10), (.drift, 11), (.none, 1)] := by decide +kernel
+example : (view (rowsOf (STEPD.step C05Examples.cs) stepdRow STEPD.init C05Examples.xs)).drop 4 =
+    [(.none, 5), (.warning, 6), (.drift, 7), (.none, 1), (.none, 2), (.none, 3), (.none, 4), (.none, 5), (.none, 6),
+     (.drift, 7)] := by decide +kernel
+example : view (rowsOf (fun s x => (Cusum.step Cusum.exKnown s x).1) cusumRow (Cusum.init Cusum.exKnown) [0, 0, 3, 4]) =
+    [(.none, 1), (.none, 2), (.drift, 3), (.none, 1)] := by decide +kernel
+example : Adwin.cfgEx.subThresh = 1 ∧
+    (rowsOf (adwinStepL Adwin.cfgEx) adwinRow adwinInitL [0, 0, 0, 0, 8, 8]).map (fun o => (o.drift, o.since, o.recs)) =
+    [(.none, 1, none, none), (.none, 2, none, none), (.none, 3, none, none), (.none, 4, none, none),
+     (.drift, 5, some 4, some 4), (.none, 1, none, none)] := by decide +kernel
+/-- LFR with `burn_in = 1`: silent at `since = 1`, drift at 2, restart, drift again (cached bounds) -/
+example : view (rowsOf (lfrStep LFR.cI2) lfrRow LFR.init
+      [⟨true, true, [[[true, true, false]]]⟩, ⟨true, true, [[[true, true, true, true]], [[true, true, true, true]]]⟩,
+       ⟨true, true, []⟩, ⟨true, true, [[[true, true, true]]]⟩]) =
+    [(.none, 1), (.drift, 2), (.none, 1), (.drift, 2)] := by decide +kernel
+example : view (rowsOf (nndviStep NNDVI.demoCfg) nndviRow (nndviInit (some [[0], [1]]))
+      [([[2], [3]], NNDVI.demoAdj, [[0, 1, 2, 3], [0, 2, 1, 3]]), ([[2], [3]], NNDVI.demoAdj, [[0, 1, 2, 3], [0, 2, 1, 3]])]) =
+    [(.drift, 1), (.none, 1)] := by decide +kernel
+/-- MD3: nine calls (four of them refused), three accepted updates, the second answered by a drift -/
+example : view (md3Rows MD3.exCfg (MD3.init MD3.exCfg MD3.exRef) false MD3.exOps) =
+    [(.none, 1), (.drift, 2), (.warning, 1)] := by decide +kernel
+example : view (rowsOf (pcacdStep PCACD.exCfg) pcacdRow PCACD.init
+      (PCACD.exInputs ++ [(5, ({} : PCACD.Oracle Int)), (6, { numPcs := 2 }), (7, { js := [5] })])) =
+    [(.none, 1), (.none, 2), (.none, 3), (.drift, 4), (.none, 0), (.none, 1), (.none, 2)] := by decide +kernel
+
+end Examples
 end MV.Lifecycle
